@@ -167,6 +167,7 @@ func (g *Engine) checkProperty(prop string, hs []*Harness, tier string, seed int
 	assertsTotal := 0
 	validated := 0
 	knownAnnounced := []string{}
+	var wits []witness
 	for _, h := range hs {
 		hr := g.RunHarness(h, opts)
 		hs := harnessSummary{Name: h.Name, Doc: strings.TrimSpace(h.Doc), Instances: hr.Instances, Paths: hr.Paths, Steps: hr.Steps,
@@ -204,6 +205,9 @@ func (g *Engine) checkProperty(prop string, hs []*Harness, tier string, seed int
 		for _, l := range labels {
 			if m, ok := hr.Reached[l]; ok {
 				hs.Reached = append(hs.Reached, l)
+				if h.Expect == "" && len(hr.Violations) == 0 {
+					wits = append(wits, witness{h: h, args: hr.ReachedArgs[l], model: m, label: l})
+				}
 				if len(samples) < 24 {
 					samples = append(samples, map[string]interface{}{"harness": h.Name, "reach": l, "instance": hr.ReachedInst[l], "witness": renderModel(m)})
 				}
@@ -224,6 +228,15 @@ func (g *Engine) checkProperty(prop string, hs []*Harness, tier string, seed int
 			prop, h.Name, hr.Instances, hr.Paths, hr.Queries, hr.Sat, hr.Unsat, hr.Unknown, hr.SolverTime.Seconds(), hr.Wall.Seconds(), len(hr.Violations))
 	}
 
+	// translator validation: reach witnesses are re-run natively
+	witnessOK := 0
+	if replay && len(allViol) == 0 {
+		var bad []string
+		witnessOK, bad = g.validateWitnesses(prop, wits)
+		for _, b := range bad {
+			inconclusive = append(inconclusive, "translator validation: "+b)
+		}
+	}
 	// replay
 	confirmed := 0
 	var violLines []string
@@ -302,7 +315,8 @@ func (g *Engine) checkProperty(prop string, hs []*Harness, tier string, seed int
 			"coverage": map[string]interface{}{
 				"states":                        totalPaths,
 				"transitions":                   totalQueries,
-				"traces_validated_against_impl": validated + g.validationRuns,
+				"traces_validated_against_impl": validated + witnessOK,
+				"reach_witnesses_rerun_natively": witnessOK,
 				"samples":                       nonEmpty(samples),
 				"explanation":                   "states = symbolic paths completed over all harness instances; transitions = SMT queries discharged (branch feasibility + obligations); every obligation is decided by the solver for all values of the symbolic inputs within the stated bounds",
 				"functions_encoded":             g.funcsEncoded(hs),
